@@ -256,7 +256,9 @@ def run_sem(prop, tier, v, families=None, opts=None, replay_cases=None, want=("s
                     if k % every == 0 and len(picked) < nsp:
                         o.write(line)
                         picked.append(json.loads(line)["rid"])
-            res = C.tlc("MCVMSpace", "MCVMSpace.cfg", env={"OBS": spf}, workers=8, xmx="10g", timeout=3000, workdir=work, allow_violation=True)
+            # depth-first queue: a run that never ends is followed to the step bound at once instead of after every
+            # other run has been explored to the same depth (33 s instead of > 25 min on such a tree; same result otherwise)
+            res = C.tlc("MCVMSpace", "MCVMSpace.cfg", env={"OBS": spf}, workers=8, xmx="10g", timeout=3000, workdir=work, allow_violation=True, deque=True)
             inv = res.violated_invariant()
             R["space_states"] = res.distinct
             R["states"] += res.distinct
@@ -319,6 +321,10 @@ def classify(prop, R, v, kinds_sem=(), pairs=(), use_bad=False, use_fails=None):
 
     samples = []
     kf = {f["id"]: f for f in C.load_known_findings()["findings"] if prop in f["properties"]}
+    # recorded findings of other properties: an observation that differs from the reference exactly as one of
+    # them says is that finding showing through, not a violation of this property (whose own comparison - entry
+    # point against entry point, the iteration contract on the engine's own first matches - is made separately)
+    kf_other = {f["id"]: f for f in C.load_known_findings()["findings"] if prop not in f["properties"]}
     for j in R["jlines"]:
         kd = j["kind"]
         if kd not in kinds_sem:
@@ -327,6 +333,10 @@ def classify(prop, R, v, kinds_sem=(), pairs=(), use_bad=False, use_fails=None):
             if j.get("dev") and j["dev"][0] in kf:
                 f = kf[j["dev"][0]]
                 v.known_finding(f["id"], f["what"])
+                continue
+            if j.get("dev") and j["dev"][0] in kf_other:
+                R.setdefault("explained_by_findings_of_other_properties", {}).setdefault(j["dev"][0], 0)
+                R["explained_by_findings_of_other_properties"][j["dev"][0]] += 1
                 continue
             r = rec(j["id"])
             what = "%s: /%s/%s on %s from %d: expected %s, engine %s" % (
@@ -363,6 +373,8 @@ def classify(prop, R, v, kinds_sem=(), pairs=(), use_bad=False, use_fails=None):
             if kd == "irparse" and j.get("dev") and j["dev"][0] in kf:
                 f = kf[j["dev"][0]]
                 v.known_finding(f["id"], f["what"])
+                continue
+            if kd == "irparse" and j.get("dev") and j["dev"][0] in kf_other:
                 continue
             r = rec(j["id"])
             if kd == "irparse":
@@ -448,6 +460,9 @@ def classify(prop, R, v, kinds_sem=(), pairs=(), use_bad=False, use_fails=None):
                         break
             v.violation("process died (rc=%s) on case %d" % (c["rc"], c["case"]),
                         {"pipeline": "sem", "case": line, "kind": "crash"})
+    for fid, n in sorted(R.get("explained_by_findings_of_other_properties", {}).items()):
+        v.note("%d observation(s) differ from the reference exactly as recorded finding %s (a finding of %s, not of %s)" % (
+            n, fid, ", ".join(kf_other[fid]["properties"]), prop))
     some = R["stats"][:3] or [{"id": j["id"]} for j in R["jlines"] if j["kind"] in ("coststat", "vmstat")][:3]
     for st in some:
         r = rec(st["id"])
@@ -473,5 +488,6 @@ def coverage(R, samples, rule):
         "machine_state_space_states": R.get("space_states", 0), "machine_state_space_programs": R.get("space_programs", 0),
         "evaluations": evals, "distinct_nontrivial": nontriv,
         "programs": R["ncases"], "families": R["counts"],
+        "explained_by_findings_of_other_properties": R.get("explained_by_findings_of_other_properties", {}),
         "rule": rule, "samples": samples, "exhaustive": True, "skipped_machine_layers": R.get("skipped_layers", []),
     }
